@@ -421,29 +421,6 @@ func (t *ZeroAllocTokenizer) TokenizeHtmlPreserving() ([]Token, error) {
 			}
 		}
 
-		// Check if the tag is escaped
-		if nextTagPos != -1 && nextTagPos > 0 && t.source[nextTagPos-1] == '\\' {
-			// Add text up to the backslash
-			if nextTagPos-1 > t.position {
-				preText := t.source[t.position : nextTagPos-1]
-				t.AddToken(TOKEN_TEXT, preText, t.line)
-				t.line += countNewlines(preText)
-			}
-
-			// Add the tag as literal text (without the backslash)
-			// Find which pattern was matched
-			for i := 0; i < 5; i++ {
-				if tagType == tagTypes[i] {
-					t.AddToken(TOKEN_TEXT, tagPatterns[i], t.line)
-					break
-				}
-			}
-
-			// Move past this tag
-			t.position = nextTagPos + tagLength
-			continue
-		}
-
 		// No more tags found - add the rest as TEXT
 		if nextTagPos == -1 {
 			if t.position < len(t.source) {
@@ -1140,37 +1117,6 @@ func (t *ZeroAllocTokenizer) TokenizeOptimized() ([]Token, error) {
 				t.line += countNewlines(remainingText)
 			}
 			break
-		}
-
-		// Check if the tag is escaped with a backslash
-		if tagLoc.Position > 0 && t.source[tagLoc.Position-1] == '\\' {
-			// Add text up to the backslash
-			if tagLoc.Position-1 > pos {
-				preText := t.source[pos : tagLoc.Position-1]
-				t.AddToken(TOKEN_TEXT, preText, t.line)
-				t.line += countNewlines(preText)
-			}
-
-			// Add the tag as literal text (without the backslash)
-			var tagText string
-			switch tagLoc.Type {
-			case TAG_VAR:
-				tagText = "{{"
-			case TAG_VAR_TRIM:
-				tagText = "{{-"
-			case TAG_BLOCK:
-				tagText = "{%"
-			case TAG_BLOCK_TRIM:
-				tagText = "{%-"
-			case TAG_COMMENT:
-				tagText = "{#"
-			}
-
-			t.AddToken(TOKEN_TEXT, tagText, t.line)
-
-			// Move past this tag
-			pos = tagLoc.Position + tagLoc.Length
-			continue
 		}
 
 		// Add text before the tag
